@@ -8,6 +8,7 @@ import (
 	"encoding/json"
 	"fmt"
 	"io"
+	"math"
 
 	"github.com/dtn7/cboring"
 )
@@ -42,7 +43,13 @@ func (hcb HopCountBlock) IsExceeded() bool {
 }
 
 // Increment the hop counter and returns if the hop limit is exceeded afterwards.
+//
+// The counter is an uint8. A count of 255 is not incremented, as it would wrap to zero; one more
+// hop exceeds every possible limit, so true is returned.
 func (hcb *HopCountBlock) Increment() bool {
+	if hcb.Count == math.MaxUint8 {
+		return true
+	}
 	hcb.Count++
 
 	return hcb.IsExceeded()
